@@ -4,14 +4,15 @@
 # Not a registered check: it edits /repo's working tree while it runs.
 set -u
 cd "$(dirname "$0")"
-git -C /repo status --short | grep -q . && { echo "repo working tree is not clean"; exit 2; }
+REPO=${VERIF_REPO:-/repo}   # an alternate checkout (with a copy of /verif whose shadow manifest points at it) keeps /repo free
+git -C "$REPO" status --short | grep -q . && { echo "repo working tree is not clean"; exit 2; }
 ok=0; bad=0
 for d in seeded/*/; do
   id=$(basename "$d")
   prop=$(python3 -c "import json;print(json.load(open('$d/meta.json'))['breaks_property'])")
-  if ! git -C /repo apply "$PWD/$d/patch.diff" 2>/dev/null; then echo "$id: patch does not apply any more"; bad=$((bad+1)); continue; fi
+  if ! git -C "$REPO" apply "$PWD/$d/patch.diff" 2>/dev/null; then echo "$id: patch does not apply any more"; bad=$((bad+1)); continue; fi
   out=$(./check "$prop" quick 2>&1); rc=$?
-  git -C /repo checkout -- .
+  git -C "$REPO" checkout -- .
   if [ $rc -eq 1 ]; then
     ok=$((ok+1)); echo "$id ($prop): caught  -- $(echo "$out" | grep -m1 '^  clause=' | cut -c1-150)"
   else
